@@ -140,6 +140,9 @@ func treeWorldAO(r *Run, rng *Rng, w *treeWorld, maxLeaves int, fabIdx int64) {
 	}
 	for vi, v := range committed {
 		w.exec(r, fmt.Sprintf("q rootidx %d", v.idx))
+		if w.tx == nil && (vi == 0 || rng.Chance(10)) {
+			w.exec(r, fmt.Sprintf("q rootidx! %d", v.idx))
+		}
 		root, ok := w.rootsByIdx[v.idx]
 		if !ok {
 			continue
